@@ -24,7 +24,7 @@ func init() { Register(c11{}) }
 func (c11) ID() string    { return "C11" }
 func (c11) Level() string { return "fault_enumeration" }
 func (c11) Rule() string {
-	return "workload = seeded fault-free writer run (any Add/Write/Close history incl. empty Writes and records pending at Close, 0..4 row groups, benign or random-byte strings, page size 1..8, three codecs, three shapes) producing a file of L bytes on the sim disk. Cases: the writer crashes at EVERY byte: every strict prefix 0..L-1 is opened and iterated with the documented client loop (files above 64 KiB: every cut in the last 4 KiB and within 8 bytes of each sink-call boundary plus a seeded sample). Source kind cycles through ReadSeeker; +ByteReader; +ByteReader+ReaderAt+WriterTo. Non-trivial = cut > 4 (more than the leading magic is durable); distinct = distinct (file digest, cut)."
+	return "workload = seeded fault-free writer run (any Add/Write/Close history incl. empty Writes and records pending at Close, 0..4 row groups, benign or random-byte strings, page size 1..8, three codecs, three shapes) producing a file of L bytes on the sim disk. Cases: the writer crashes at EVERY byte: every strict prefix 0..L-1 is opened and iterated with the documented client loop (files above 64 KiB: every cut in the last 4 KiB and within 8 bytes of each sink-call boundary plus a seeded sample; files of the 70-column shape: every cut in the last 256 bytes, every cut that ends in the magic, and a seeded 1-in-8 sample of the rest). Source kind cycles through ReadSeeker; +ByteReader; +ByteReader+ReaderAt+WriterTo. Non-trivial = cut > 4 (more than the leading magic is durable); distinct = distinct (file digest, cut)."
 }
 func (c11) Assumptions() []string {
 	return []string{
@@ -118,8 +118,12 @@ func (p c11) Run(runseed uint64, tier string, acc *Acc) []*core.Violation {
 	}
 	var riskyCuts []int
 	var riskyKinds []string
+	wide := f.W.Shape == "wide" // 70 columns: opening a reader costs ~30 us before the first byte is read
 	for cut := 0; cut < L; cut++ {
 		if L > 64<<10 && cut < L-4096 && !boundary[cut] && !r.Chance(1, 16) {
+			continue
+		}
+		if wide && cut < L-256 && !riskyCut(f.Data, cut) && !r.Chance(1, 8) {
 			continue
 		}
 		kind := []string{"rs", "rsb", "rsx", "rsf"}[(cut+int(runseed%4))%4]
